@@ -121,13 +121,12 @@ static void script4(void) {
   g_reads = 0;
 }
 
-void h_hex4(void) {
-  struct JsonDeserializer_StubReader d;
-  memset(&d, 0, sizeof d);
-  d.latch_.loaded_ = 0;
+static void hex4_run(unsigned *err_out, uint16_t *result_out, unsigned *want_err_out, uint16_t *want_out, unsigned *consumed_out, struct JsonDeserializer_StubReader *d) {
+  memset(d, 0, sizeof *d);
+  d->latch_.loaded_ = 0;
   script4();
-  uint16_t result = in_u16();
-  unsigned err = JsonDeserializer_StubReader__parseHex4(&d, &result);
+  *result_out = in_u16();
+  *err_out = JsonDeserializer_StubReader__parseHex4(d, result_out);
   /* expected: scan the first 4 delivered bytes; end of input (<=0) -> IncompleteInput(2); non-hex -> InvalidInput(3) */
   unsigned want_err = 0;
   uint16_t want = 0;
@@ -135,15 +134,36 @@ void h_hex4(void) {
 #define STEP(i) if (want_err == 0) { int c = g_script[i]; int v = spec_hexval(c); \
     if (c <= 0) want_err = 2; else if (v < 0) want_err = 3; else { want = (uint16_t)((want << 4) | v); consumed++; } }
   STEP(0) STEP(1) STEP(2) STEP(3)
-  COVER(want_err == 0); COVER(want_err == 2); COVER(want_err == 3);
+  *want_err_out = want_err; *want_out = want; *consumed_out = consumed;
+}
+/* C17/C01: four hex digits in any case decode to their value; exactly the four digits are consumed */
+void h_hex4_valid(void) {
+  struct JsonDeserializer_StubReader d;
+  unsigned err, want_err, consumed; uint16_t result, want;
+  hex4_run(&err, &result, &want_err, &want, &consumed, &d);
+  COVER(want_err == 0);
+  if (want_err == 0) {
+    CHECK(err == 0, "four hex digits (either case) are accepted");
 #ifdef CANARY_HEX4
-  CHECK(err == want_err || want == 0xABCD, "parseHex4 classification: Ok iff four hex digits, Incomplete at end, Invalid otherwise");
-  CHECK(err != 0 || result == (uint16_t)(want ^ (want == 0xABCD)), "parseHex4 value");
+    CHECK(result == (uint16_t)(want ^ (want == 0xABCD)), "parseHex4 value == the 16-bit number the digits spell");
 #else
-  CHECK(err == want_err, "parseHex4 classification: Ok iff four hex digits, Incomplete at end, Invalid otherwise");
-  CHECK(err != 0 || result == want, "parseHex4 value");
+    CHECK(result == want, "parseHex4 value == the 16-bit number the digits spell");
 #endif
-  CHECK(err != 0 || (g_reads == 4 && !d.latch_.loaded_), "parseHex4 consumes exactly the four digits");
+    CHECK(g_reads == 4 && !d.latch_.loaded_, "parseHex4 consumes exactly the four digits");
+  }
+}
+/* C10/C03: anything else is classified: end of input -> IncompleteInput, a non-hex byte -> InvalidInput */
+void h_hex4_classify(void) {
+  struct JsonDeserializer_StubReader d;
+  unsigned err, want_err, consumed; uint16_t result, want;
+  hex4_run(&err, &result, &want_err, &want, &consumed, &d);
+  COVER(want_err == 2); COVER(want_err == 3);
+#ifdef CANARY_HEX4C
+  CHECK(err == want_err || (want_err == 2 && consumed == 3), "parseHex4 classification: Ok iff four hex digits, IncompleteInput at the end of input, InvalidInput at a non-hex byte");
+  CHECK(want_err != 2 || consumed != 3, "canary");
+#else
+  CHECK(err == want_err, "parseHex4 classification: Ok iff four hex digits, IncompleteInput at the end of input, InvalidInput at a non-hex byte");
+#endif
   CHECK(g_reads <= consumed + 1, "parseHex4 reads at most one byte past the accepted digits");
 }
 
